@@ -423,8 +423,45 @@ func c17LookAlikePaths(r *Run) {
 	}
 }
 
+// the typed getters on values of every supported kind
+func c17Getters(r *Run) {
+	st := vuego.NewStackWithData(map[string]any{"i": 7, "i8": int8(-8), "i16": int16(160), "i32": int32(-320), "i64": int64(1) << 40, "u": uint(9), "f32": float32(2.5), "f64": 3.99,
+		"s": "text", "num": "12", "neg": "-4", "notnum": "12x", "b": true, "sg": c01Str{"stringer"}, "u32": uint32(32), "nilv": nil, "list": []string{"a", "b"}, "m": map[string]any{"k": int16(5)}}, nil)
+	for _, c := range []struct {
+		path string
+		want int
+		ok   bool
+	}{{"i", 7, true}, {"i8", -8, true}, {"i16", 160, true}, {"i32", -320, true}, {"i64", 1 << 40, true}, {"u", 9, true}, {"f32", 2, true}, {"f64", 3, true},
+		{"num", 12, true}, {"neg", -4, true}, {"notnum", 0, false}, {"s", 0, false}, {"b", 0, false}, {"nilv", 0, false}, {"missing", 0, false}, {"m.k", 5, true}, {"list", 0, false}} {
+		got, ok := st.GetInt(c.path)
+		r.Eval("getint:"+c.path, true, nil)
+		r.Count("stream:getters(oracle only)")
+		if ok != c.ok || got != c.want {
+			r.Fail("GetInt does not return the number the path holds", map[string]string{"oracle": "getters", "getter": "GetInt", "path": c.path}, map[string]any{"path": c.path, "got": fmt.Sprint(got, ok), "want": fmt.Sprint(c.want, c.ok)})
+		}
+	}
+	for _, c := range []struct {
+		path, want string
+		ok         bool
+	}{{"s", "text", true}, {"i", "7", true}, {"i16", "160", true}, {"i64", "1099511627776", true}, {"u32", "32", true}, {"f32", "2.5", true}, {"f64", "3.99", true}, {"b", "true", true},
+		{"sg", "stringer", true}, {"nilv", "", false}, {"missing", "", false}, {"m.k", "5", true}, {"list", "[a b]", true}} {
+		got, ok := st.GetString(c.path)
+		r.Eval("getstring:"+c.path, true, nil)
+		if ok != c.ok || got != c.want {
+			r.Fail("GetString does not return the string form of what the path holds", map[string]string{"oracle": "getters", "getter": "GetString", "path": c.path}, map[string]any{"path": c.path, "got": fmt.Sprint(got, ok), "want": fmt.Sprint(c.want, c.ok)})
+		}
+	}
+	if sl, ok := st.GetSlice("list"); !ok || fmt.Sprint(sl) != "[a b]" {
+		r.Fail("GetSlice does not return the elements of a typed slice", map[string]string{"oracle": "getters", "getter": "GetSlice", "path": "list"}, map[string]any{"got": fmt.Sprint(sl, ok)})
+	}
+	if _, ok := st.GetSlice("s"); ok {
+		r.Fail("GetSlice answers for a string", map[string]string{"oracle": "getters", "getter": "GetSlice", "path": "s"}, nil)
+	}
+}
+
 func runC17(r *Run) {
 	c17LookAlikePaths(r)
+	c17Getters(r)
 	c17GoIndexing(r)
 	r.Imports = []string{"Base.Val", "Model.Stack"}
 	r.Rule("histories of Stack operations (Push fresh / reused caller map, Pop, Set, Lookup, Resolve, EnvMap, Copy+switch, ForEach, GetString/Int/Slice/Map) " +
